@@ -52,6 +52,33 @@ struct SDir {
 enum Val {
     B(bool),
     U(u64),
+    /// in a directive: the pattern PATS[i % 8]; recorded: the text RVALS[i % 8], as a str for
+    /// i < 8 and through a Debug impl that prints the bare text for i >= 8
+    S(u8),
+}
+/// value patterns (regular expressions matched against the whole value) ...
+const PATS: [&str; 8] = ["bob", "b.b", "bob|jim", "(jim)?bob", "bo+b", "jim", "bob", "bo"];
+/// ... and recorded texts; none of the patterns matches "true", "false" or a number, so a
+/// pattern never matches a bool / integer value under either reading of the documentation
+const RVALS: [&str; 8] = ["bob", "bxb", "jim", "jimbob", "boob", "jim", "not-bob", "bobby"];
+struct Bare(&'static str);
+impl std::fmt::Debug for Bare {
+    fn fmt(&self, f: &mut std::fmt::Formatter<'_>) -> std::fmt::Result {
+        f.write_str(self.0)
+    }
+}
+/// does a span whose field holds `r` satisfy the directive's value matcher `d`?
+fn val_matches(d: Val, r: Val) -> bool {
+    match (d, r) {
+        (Val::B(a), Val::B(b)) => a == b,
+        (Val::U(a), Val::U(b)) => a == b,
+        (Val::S(p), Val::S(v)) => {
+            static RE: std::sync::OnceLock<Vec<regex::Regex>> = std::sync::OnceLock::new();
+            let res = RE.get_or_init(|| PATS.iter().map(|p| regex::Regex::new(&format!("^(?:{p})$")).unwrap()).collect());
+            res[p as usize % 8].is_match(RVALS[v as usize % 8])
+        }
+        _ => false,
+    }
 }
 #[derive(Clone, Debug, Serialize, Deserialize, PartialEq)]
 struct DDir {
@@ -143,6 +170,7 @@ fn val_str(v: Val) -> String {
     match v {
         Val::B(b) => b.to_string(),
         Val::U(u) => u.to_string(),
+        Val::S(i) => PATS[i as usize % 8].to_string(),
     }
 }
 impl DDir {
@@ -312,7 +340,7 @@ impl Stack {
         let cs_f = fs.field("cs").unwrap();
         let v = i as u64;
         let id = if let (Some(xf), Some(yf)) = (fs.field("x"), fs.field("y")) {
-            let (xb, xu, yb, yu);
+            let (xb, xu, yb, yu, xs, ys, xd, yd);
             let xv: Option<&dyn Value> = match x {
                 Some(Val::B(b)) => {
                     xb = b;
@@ -321,6 +349,14 @@ impl Stack {
                 Some(Val::U(u)) => {
                     xu = u;
                     Some(&xu)
+                }
+                Some(Val::S(i)) if i % 16 < 8 => {
+                    xs = RVALS[i as usize % 8];
+                    Some(&xs)
+                }
+                Some(Val::S(i)) => {
+                    xd = tracing_core::field::debug(Bare(RVALS[i as usize % 8]));
+                    Some(&xd)
                 }
                 None => None,
             };
@@ -332,6 +368,14 @@ impl Stack {
                 Some(Val::U(u)) => {
                     yu = u;
                     Some(&yu)
+                }
+                Some(Val::S(i)) if i % 16 < 8 => {
+                    ys = RVALS[i as usize % 8];
+                    Some(&ys)
+                }
+                Some(Val::S(i)) => {
+                    yd = tracing_core::field::debug(Bare(RVALS[i as usize % 8]));
+                    Some(&yd)
                 }
                 None => None,
             };
@@ -559,7 +603,7 @@ fn run_dynamic(sdirs_in: &[SDir], ddirs_in: &[DDir], as_filter: bool, ops: &[Op]
                 .iter()
                 .filter(|d| d.cares(ms.target, ms.name))
                 .filter(|d| match d.field {
-                    Some((f, Some(v))) => (if f % 2 == 0 { ms.x } else { ms.y }) == Some(v) && d.two().map(|v2| (if f % 2 == 0 { ms.y } else { ms.x }) == Some(v2)).unwrap_or(true),
+                    Some((f, Some(v))) => (if f % 2 == 0 { ms.x } else { ms.y }).map_or(false, |r| val_matches(v, r)) && d.two().map(|v2| (if f % 2 == 0 { ms.y } else { ms.x }).map_or(false, |r| val_matches(v2, r))).unwrap_or(true),
                     _ => true,
                 })
                 .map(|d| d.level)
@@ -618,7 +662,7 @@ fn run_dynamic(sdirs_in: &[SDir], ddirs_in: &[DDir], as_filter: bool, ops: &[Op]
                             let i = meta_index(1, ms.target, ms.name);
                             let fs = METAS[i].fields();
                             let f = fs.field(["x", "y"][field as usize % 2]).unwrap();
-                            let (b, u);
+                            let (b, u, sv, dv);
                             let val: &dyn Value = match v {
                                 Val::B(x) => {
                                     b = x;
@@ -627,6 +671,14 @@ fn run_dynamic(sdirs_in: &[SDir], ddirs_in: &[DDir], as_filter: bool, ops: &[Op]
                                 Val::U(x) => {
                                     u = x;
                                     &u
+                                }
+                                Val::S(i) if i % 16 < 8 => {
+                                    sv = RVALS[i as usize % 8];
+                                    &sv
+                                }
+                                Val::S(i) => {
+                                    dv = tracing_core::field::debug(Bare(RVALS[i as usize % 8]));
+                                    &dv
                                 }
                             };
                             let vals = [(&f, Some(val))];
@@ -817,7 +869,7 @@ fn sdir_strategy() -> BoxedStrategy<SDir> {
     .boxed()
 }
 fn val_strategy() -> BoxedStrategy<Val> {
-    prop_oneof![any::<bool>().prop_map(Val::B), (0u64..3).prop_map(Val::U)].boxed()
+    prop_oneof![3 => any::<bool>().prop_map(Val::B), 3 => (0u64..3).prop_map(Val::U), 2 => (0u8..16).prop_map(Val::S)].boxed()
 }
 fn ddir_strategy() -> BoxedStrategy<DDir> {
     (proptest::option::weighted(0.4, 0u8..9), proptest::option::weighted(0.8, 0u8..2), proptest::option::weighted(0.5, (0u8..2, proptest::option::weighted(0.7, val_strategy()))), 1u8..=5, proptest::option::weighted(0.2, val_strategy()))
